@@ -1733,7 +1733,12 @@ def reconcile_change_groups(insert_groups, delete_groups, document):
             buffer.extend(deletion)
             delete_index += 1
         elif isinstance(insertion, list):
-            buffer.extend(insertion)
+            # The speculative deletion buffer may be thrown away later, so
+            # inserted content must never be written to it.
+            if buffer is delete_buffer:
+                (insert_buffer if insert_tag_stack else document).extend(insertion)
+            else:
+                buffer.extend(insertion)
             insert_index += 1
         elif deletion:
             tag = tag_info(deletion)
@@ -1853,6 +1858,18 @@ def reconcile_change_groups(insert_groups, delete_groups, document):
         document.extend(delete_buffer)
 
     document.extend(insert_buffer)
+
+    # If we stopped early because the structures could not be reconciled, make
+    # sure the remaining changed content still shows up: deleted text in its
+    # markers, and the rest of the (new) document structure as-is.
+    for deletion in delete_groups[delete_index:]:
+        if isinstance(deletion, list):
+            document.extend(deletion)
+    for insertion in insert_groups[insert_index:]:
+        if isinstance(insertion, list):
+            document.extend(insertion)
+        else:
+            document.append(insertion)
 
     insert_groups.clear()
     delete_groups.clear()
